@@ -350,7 +350,7 @@ func FormatDataType(dt *ast.DataType) string {
 				// String parameters in type need extra escaping: 'val' -> \\\'val\\\'
 				params = append(params, fmt.Sprintf("\\\\\\'%s\\\\\\'", escapeStringForTypeParam(fmt.Sprintf("%s", lit.Value))))
 			} else {
-				params = append(params, fmt.Sprintf("%v", lit.Value))
+				params = append(params, formatExprForType(lit))
 			}
 		} else if nested, ok := p.(*ast.DataType); ok {
 			params = append(params, FormatDataType(nested))
@@ -452,15 +452,26 @@ func formatFunctionCallForType(fn *ast.FunctionCall) string {
 func formatExprForType(expr ast.Expression) string {
 	switch e := expr.(type) {
 	case *ast.Literal:
-		if e.Type == ast.LiteralArray {
-			// Format array literal: [1, 2] -> "[1, 2]"
+		switch e.Type {
+		case ast.LiteralArray, ast.LiteralTuple:
+			// Format array / tuple literal: [1, 2] -> "[1, 2]", (1, 'a') -> "(1, \\\'a\\\')"
 			if elements, ok := e.Value.([]ast.Expression); ok {
 				parts := make([]string, 0, len(elements))
 				for _, elem := range elements {
 					parts = append(parts, formatExprForType(elem))
 				}
+				if e.Type == ast.LiteralTuple {
+					return "(" + strings.Join(parts, ", ") + ")"
+				}
 				return "[" + strings.Join(parts, ", ") + "]"
 			}
+		case ast.LiteralString:
+			// a string inside a type name is a quoted string inside a string literal
+			if s, ok := e.Value.(string); ok {
+				return "\\\\\\'" + escapeStringForTypeParam(s) + "\\\\\\'"
+			}
+		case ast.LiteralNull:
+			return "NULL"
 		}
 		return fmt.Sprintf("%v", e.Value)
 	case *ast.Identifier:
